@@ -397,14 +397,18 @@ func genG04(repo string, w *Out) error {
 	}
 	ail := newAlpha(il, "hp", "host", "ip")
 	mapsIDNA := false
+	stripsDot := false
 	switch first := hp.Src(il.Body.List[0]); {
 	case ail.Eq("host = strings.ToLower(host)", first):
 	case ail.Eq("host = strings.ToLower(asciiHostname(host))", first):
 		mapsIDNA = true
+	case ail.Eq(`host = strings.TrimSuffix(strings.ToLower(asciiHostname(host)), ".")`, first):
+		mapsIDNA, stripsDot = true, true
 	default:
 		return fmt.Errorf("isLocalhost: first statement %q is not a shape the model knows", hp.Src(il.Body.List[0]))
 	}
 	w.DefBool("localhost_maps_idna", mapsIDNA)
+	w.DefBool("localhost_strips_dot", stripsDot)
 	ilc := g04IfConds(hp, il.Body)
 	if len(ilc) != 2 || !ail.Eq("slices.Contains(hp.localhost, host)", ilc[0]) {
 		return fmt.Errorf("isLocalhost: conditions %q", ilc)
@@ -523,7 +527,7 @@ func genG04(repo string, w *Out) error {
 		{"HTTPProxy.allowWithinTimeFrame", "timeframe", "!middleware.TimeFrameAllows(hp.config.AllowTimeFrame)"},
 		{"HTTPProxy.basicAuth", "basicauth", "!ba.AuthenticatedRequest(req, user, pass)"},
 		{"HTTPProxy.denyLocalhost", "localhost", "hp.isLocalhost(req.URL.Hostname())"},
-		{"HTTPProxy.denyDomains", "denydomains", "r.Match(req.URL.Hostname())|h := req.URL.Hostname(); r.Match(h) || r.Match(asciiHostname(h))"},
+		{"HTTPProxy.denyDomains", "denydomains", "r.Match(req.URL.Hostname())@@h := req.URL.Hostname(); r.Match(h) || r.Match(asciiHostname(h))@@matchesAnyForm(r, req.URL.Hostname())"},
 	} {
 		fd, err := hp.Func(m.fn)
 		if err != nil {
@@ -534,14 +538,26 @@ func genG04(repo string, w *Out) error {
 			return err
 		}
 		am := newAlpha(fd, "hp", "u", "user", "pass", "ba", "req", "r", "h")
-		alts := strings.Split(m.cond, "|h := ")
+		alts := strings.Split(m.cond, "@@")
 		switch {
 		case am.Eq(alts[0], cond):
 			if m.key == "denydomains" {
 				w.DefBool("deny_matches_ascii_form", false)
+				w.DefBool("deny_matches_undotted_form", false)
 			}
-		case len(alts) == 2 && am.Eq("h := "+alts[1], cond):
+		case len(alts) >= 2 && am.Eq(alts[1], cond):
 			w.DefBool("deny_matches_ascii_form", true)
+			w.DefBool("deny_matches_undotted_form", false)
+		case len(alts) >= 3 && am.Eq(alts[2], cond):
+			maf, err := hp.Func("matchesAnyForm")
+			if err != nil {
+				return err
+			}
+			if s := hp.Src(maf.Body); !newAlpha(maf, "r", "host", "ascii").Eq(`{ ascii := asciiHostname(host) return r.Match(host) || r.Match(ascii) || r.Match(strings.TrimSuffix(host, ".")) || r.Match(strings.TrimSuffix(ascii, ".")) }`, s) {
+				return fmt.Errorf("matchesAnyForm: body is not the shape the model knows: %s", s)
+			}
+			w.DefBool("deny_matches_ascii_form", true)
+			w.DefBool("deny_matches_undotted_form", true)
 		default:
 			return fmt.Errorf("%s: guard is %q, expected %q", m.fn, cond, m.cond)
 		}
